@@ -103,7 +103,9 @@ int main(int argc, char** argv) {
    std::vector<RCfg> fams; families(fams, false);
    uint64_t configs = 0;
    if (vf::want_case()) { vf::note("duplicate definitions across members"); duplicate_definitions(vf::current_case()); vf::nontrivial_by_construction(); }
-   for (auto& rc0 : fams) for (int abbr = 1; abbr >= (th ? 0 : 1); --abbr) {
+   for (auto& rc0 : fams) for (int abbr = 1; abbr >= 0; --abbr) {
+      // abbreviations disabled: all families in the thorough tier, the key-related ones in the quick tier
+      if (abbr == 0 && !th && rc0.family != "prefix-keys" && rc0.family != "mandatory" && rc0.family != "requires") continue;
       RCfg rc = rc0; rc.cfg.abbr = abbr != 0; const Cfg& cfg = rc.cfg;
       std::vector<std::vector<int>> parts; partitions(cfg.args.size(), parts);
       for (auto& block_of : parts) {
